@@ -308,9 +308,7 @@ def _unparse(t):
 def classify(c, base, matches):
     """Known finding classes (DESIGN §6: D11, D12, D13, D25 and three more the resolver run exposed)."""
     search = c["search"]
-    consts = {n.value for n in ast.walk(base) if isinstance(n, ast.Constant) and isinstance(n.value, str)}
-    if search and search[-1] in consts:
-        return "C15-D25-string-constant-equals-segment"
+    # (D25 - a string constant equal to the addressed name was replaced instead of it - is repaired: fix 8971591)
     if len(search) > 2 and _has_class_path(base.body, search[:2]):
         return "C15-D12-nesting-deeper-than-two"
     if _nested_collision(base, search):
@@ -327,7 +325,45 @@ def classify(c, base, matches):
         return "C15-duplicate-name-in-scope"
     if _prefix_is_assignment(base.body, search):
         return "C15-prefix-segment-names-an-assignment"
+    if _prefix_is_function(base.body, search):
+        return "C15-prefix-segment-names-a-function"
+    if not matches and _absent_arg_falls_through(base.body, search):
+        return "C15-absent-argument-falls-through"
     return None
+
+
+def _absent_arg_falls_through(body, search):
+    """the last segment names no positional argument of the addressed function, yet a LATER statement of the same body
+    is a function with an argument of that name, or binds that name: find_in_ast goes on and returns that"""
+    if len(search) < 2:
+        return False
+    for i, stmt in enumerate(body):
+        if search[0] in members(stmt):
+            if isinstance(stmt, ast.ClassDef):
+                return _absent_arg_falls_through(stmt.body, search[1:])
+            if isinstance(stmt, ast.FunctionDef) and len(search) == 2 and search[1] not in [a.arg for a in stmt.args.args]:
+                for later in body[i + 1 :]:
+                    if isinstance(later, ast.FunctionDef) and search[1] in [a.arg for a in later.args.args]:
+                        return True
+                    if search[1] in members(later) and not isinstance(later, ast.Assign):
+                        return True
+            return False
+    return False
+
+
+def _prefix_is_function(body, search):
+    """a segment that still has two or more segments after it names a FUNCTION: find_in_ast spends one further
+    segment on every function definition it meets from there on and returns an argument of a later function"""
+    if len(search) < 3:
+        return False
+    for stmt in body:
+        if search[0] in members(stmt):
+            if isinstance(stmt, ast.FunctionDef):
+                return True
+            if isinstance(stmt, ast.ClassDef):
+                return _prefix_is_function(stmt.body, search[1:])
+            return False
+    return False
 
 
 def _d11(body, search):
